@@ -37,6 +37,11 @@ Definition implied_prec_ok (n : nat) (form : gform) (p : gparam) (P : qmat_t) : 
 
 Definition symb (n : nat) (P : qmat_t) : bool := qcll_eqb (qtranspose n P) P.
 
+(* precondition on the user's PARAMETER: symmetric where the parameter is the covariance / precision matrix itself
+   (a square root may be any matrix).  With it the symmetry of the certificate P is a theorem (Proofs/C03_Forms.v). *)
+Definition param_symb (n : nat) (form : gform) (p : gparam) : bool :=
+  match form with FCov | FPrec => symb n (as_matrix n p) | FSqrtCov | FSqrtPrec => true end.
+
 (* log-kernel and gradient of the Gaussian with precision matrix P and mean m *)
 Definition half : Qc := qc (1 # 2).
 Definition quad_logk (P : qmat_t) (m x : list Qc) : Qc :=
@@ -68,7 +73,7 @@ Definition check_gauss_prior (fix29 : bool) (form : gform) (p : gparam) (P : qma
            (m x : list Qc) (o : obs) : bool :=
   let n := length x in
   let mm := qbcast n m in
-  implied_prec_ok n form p P && symb n P &&
+  implied_prec_ok n form p P && symb n P && param_symb n form p &&
   match gauss_prior_kind fix29 form p n, o with
   | KGrad, ObsVec g => vec_close tol9 g (quad_grad P mm x)
   | KRefused, ObsRaised => true
@@ -165,7 +170,7 @@ Definition lik_kind (fix29 : bool) (form : gform) (p : gparam) (m : nat) : gkind
 Definition check_lik (fix29 : bool) (form : gform) (p : gparam) (P A B : qmat_t) (ga gb gc : Qc)
            (data th th1 : list Qc) (o : obs) (dobs : Q) : bool :=
   let m := length data in
-  implied_prec_ok m form p P && symb m P &&
+  implied_prec_ok m form p P && symb m P && param_symb m form p &&
   q_close tol9 dobs (this (lik_logk A B ga gb gc P data th1 - lik_logk A B ga gb gc P data th)) &&
   match lik_kind fix29 form p m, o with
   | KGrad, ObsVec g => vec_close tol9 g (lik_grad A B ga gb gc P data th)
